@@ -31,6 +31,13 @@ CHECKS = {
             "1..4 and 50, three schemes) run on two real authorities; TLC replays the trace, compares verdicts at every step (Pass A), the uncached verdict with the "
             "Cert model, and the real LRU list with the model's after every operation (Pass B).",
             "Signature objects are replayed with entry boundaries intact.", "DESIGN.md section 6, C11"),
+    "C13": ("model_checking",
+            "TLA+ BlockStore module over block forests (reference ancestry, prune soundness, code-shaped walk/index); TLC state-machine replay of store/get/extends/commit sequences run on the real Blockchain, RequestBlockQF and Committer",
+            "Seeded random forests (forks, equal views on different branches, gaps, unobtainable parents) and a structured equivocation-next-to-gap family are driven "
+            "through the real Blockchain (fetch through the real RequestBlockQF with lying replies) and the real Committer; TLC replays each sequence and checks "
+            "content addressing, exact ancestry where the store can know it, and that abandoned blocks are off the committed chain and reported once (Pass A), plus the "
+            "code-shaped Extends walk, stored set and reported set (Pass B).",
+            "Extends is judged only when every block the walk needs is stored or fetchable.", "DESIGN.md section 6, C13"),
     "C14": ("model_checking",
             "TLA+ EventQueue/EventLoop modules: ring buffer refines the ideal FIFO (TLC, exhaustive); TLC state-machine replay of push/pop and register/add/defer/tick sequences run on the real queue and EventLoop; concurrent producers under -race validated by TLC",
             "TLC proves the ring-buffer model refines a bounded FIFO with exact drop reporting for capacities 1..4. Every push/pop sequence to a depth (and random ones) on "
